@@ -406,6 +406,58 @@ Proof.
   intros [= <-]. apply andb_true_iff in E. destruct E as [A B]. apply Z.leb_le in A. apply Z.ltb_lt in B. lia.
 Qed.
 
+Lemma finish_inv s : WInv s -> WInv (fst (finish s)) /\ toclose (fst (finish s)) = None.
+Proof.
+  intros W. unfold finish.
+  assert (D : forall id, toclose s = Some id -> live (set_toclose s None) id = false).
+  { intros id H. destruct (w_toclose _ W _ H) as [_ B]. exact B. }
+  split.
+  - apply close_opt_inv; [apply set_toclose_none_inv; exact W|exact D].
+  - destruct (close_opt_proj _ _ D) as [_ [_ [_ [_ [T _]]]]]. rewrite T. reflexivity.
+Qed.
+
+Lemma child_update_nk s id v : nk (fst (child_update s id v)) = nk s.
+Proof.
+  unfold child_update, swap.
+  repeat match goal with |- context [if ?c then _ else _] => destruct c
+                    | |- context [match ?c with Some _ => _ | None => _ end] => destruct c end; reflexivity.
+Qed.
+
+Lemma finish_proj s : WInv s ->
+  let s' := fst (finish s) in
+  nk s' = nk s /\ cur s' = cur s /\ pend s' = pend s /\ closed s' = closed s /\ nsc s' = nsc s.
+Proof.
+  intros W. unfold finish.
+  assert (D : forall id, toclose s = Some id -> live (set_toclose s None) id = false).
+  { intros id H. destruct (w_toclose _ W _ H) as [_ B]. exact B. }
+  destruct (close_opt_proj _ _ D) as [A [B [C [E [_ [_ F]]]]]]. cbv zeta. rewrite A, B, C, E, F. repeat split.
+Qed.
+
+Lemma create_shut_inv s id : WInv s -> (id < nk s)%nat ->
+  WInv (set_scs s (fupd (scs s) (nsc s) (fun _ => (id, true))) (S (nsc s))).
+Proof.
+  intros W Hlt.
+  constructor; [bullet W | bullet W | bullet W | bullet W | bullet W | bullet W | bullet W | | | | bullet W].
+  - intros sc Hsc. simp_st. destruct (Nat.eqb_spec sc (nsc s)) as [->|Hne]; cbn [fst snd].
+    + split; [exact Hlt|left; reflexivity].
+    + assert (Hlt2 : (sc < nsc s)%nat) by lia. exact (w_own _ W _ Hlt2).
+  - intros id0 sc Hc Hin. simp_st. destruct (Nat.eqb_spec sc (nsc s)); [reflexivity|]. exact (w_shut _ W _ _ Hc Hin).
+  - intros id0 sc Hin. simp_st. pose proof (w_subs_lt _ W _ _ Hin). lia.
+Qed.
+
+Lemma newsc_during_inv s id j v : WInv s -> (id < nk s)%nat -> WInv (fst (newsc_during s id j v)).
+Proof.
+  intros W Hlt. unfold newsc_during. destruct (live s id); cbn [negb]; [|exact W].
+  pose proof (child_update_inv s j v W) as W1. pose proof (child_update_nk s j v) as N1.
+  destruct (child_update s j v) as [s1 e1]. cbn [fst] in *.
+  destruct (finish_inv s1 W1) as [W2 _]. destruct (finish_proj s1 W1) as [N2 _].
+  destruct (finish s1) as [s2 e2]. cbn [fst] in *.
+  assert (Hlt2 : (id < nk s2)%nat) by lia.
+  destruct (live s2 id).
+  - pose proof (child_newsc_inv s2 id W2 Hlt2) as X. destruct (child_newsc s2 id) as [[s3 e3] r]. exact X.
+  - cbn [fst]. apply create_shut_inv; assumption.
+Qed.
+
 Lemma step_main_inv cfg s op : WInv s -> WInv (fst (step_main cfg s op)).
 Proof.
   intros W. unfold step_main.
@@ -430,6 +482,11 @@ Proof.
   | solve [ (* 3 *) destruct (kid_of s (arg op 1)) as [id|] eqn:E; [|exact W];
             apply kid_of_lt in E; destruct E as [E _];
             pose proof (child_newsc_inv s id W E) as X; destruct (child_newsc s id) as [[s1 e] r]; exact X ]
+  | solve [ (* 12 *) destruct (kid_of s (arg op 1)) as [id|] eqn:E; [|exact W];
+            apply kid_of_lt in E; destruct E as [E _];
+            destruct (kid_of s (arg op 2)) as [j|]; [|exact W];
+            destruct ((0 <=? arg op 3) && (arg op 3 <=? 3)); [|exact W];
+            apply newsc_during_inv; assumption ]
   | solve [ (* 8 *) destruct (latest s) as [l|] eqn:E; [exact W|]; cbn [fst];
             apply set_chan_nocur_inv; [exact W|]; unfold latest in E; destruct (pend s); [discriminate|exact E] ]
   | solve [ (* 4 *) destruct (sc_of s (arg op 1)) as [sc|]; [|exact W];
@@ -449,16 +506,6 @@ Proof.
   { intros. apply live_false. rewrite Hc, Hp. cbn. split; discriminate. }
   pose proof (close_opt_inv _ _ W2 D2) as W3.
   destruct (close_opt s2 (pend s)) as [s3 e2]. exact W3.
-Qed.
-
-Lemma finish_inv s : WInv s -> WInv (fst (finish s)) /\ toclose (fst (finish s)) = None.
-Proof.
-  intros W. unfold finish.
-  assert (D : forall id, toclose s = Some id -> live (set_toclose s None) id = false).
-  { intros id H. destruct (w_toclose _ W _ H) as [_ B]. exact B. }
-  split.
-  - apply close_opt_inv; [apply set_toclose_none_inv; exact W|exact D].
-  - destruct (close_opt_proj _ _ D) as [_ [_ [_ [_ [T _]]]]]. rewrite T. reflexivity.
 Qed.
 
 (* the invariant at operation boundaries *)
@@ -1044,6 +1091,115 @@ Proof.
   destruct CC as [A [B C]]. repeat split; try assumption. intros; discriminate.
 Qed.
 
+(* ---------- the re-entrant NewSubConn operation and clause 4's in-flight part ---------- *)
+
+Lemma n_events_app a b : n_events (a ++ b) = n_events a ++ n_events b.
+Proof. apply flat_map_app. Qed.
+Lemma n_events_S l : n_events (map evS l) = [].
+Proof. induction l; [reflexivity|exact IHl]. Qed.
+
+Lemma n_events_update s id v : n_events (snd (child_update s id v)) = [].
+Proof.
+  unfold child_update, swap.
+  repeat match goal with |- context [if ?c then _ else _] => destruct c
+                    | |- context [match ?c with Some _ => _ | None => _ end] => destruct c end; reflexivity.
+Qed.
+
+Lemma n_events_finish s : WInv s -> n_events (snd (finish s)) = [].
+Proof.
+  intros W. rewrite (finish_events _ W). destruct (toclose s); [|reflexivity].
+  rewrite n_events_app, n_events_S. reflexivity.
+Qed.
+
+Lemma closed_in_update_dead s j v c : Inv s -> In c (snd (spec_report s j v)) ->
+  live (fst (finish (fst (child_update s j v)))) c = false.
+Proof.
+  intros [W T] Hc. pose proof (child_update_inv s j v W) as W1.
+  destruct (child_update_spec s j v W T) as [_ [_ [TC _]]].
+  destruct (finish_proj _ W1) as [_ [A [B _]]].
+  rewrite <- TC in Hc. destruct (toclose (fst (child_update s j v))) as [c'|] eqn:E; [|destruct Hc].
+  destruct Hc as [<-|[]]. destruct (w_toclose _ W1 _ E) as [_ D].
+  apply live_false in D. apply live_false. rewrite A, B. exact D.
+Qed.
+
+Lemma memz_zn id l : existsb (Z.eqb (zn id)) (map zn l) = true -> In id l.
+Proof.
+  intros H. apply existsb_exists in H. destruct H as [z [Hz E]]. apply Z.eqb_eq in E. subst z.
+  apply in_map_iff in Hz. destruct Hz as [x [E Hx]]. unfold zn in E. apply Nat2Z.inj in E. subst x. exact Hx.
+Qed.
+
+Lemma has_shutdown_mono a ch b sc : has_shutdown ch sc = true -> has_shutdown (a ++ ch ++ b) sc = true.
+Proof. intros H. rewrite !has_shutdown_app, H. rewrite orb_true_r. reflexivity. Qed.
+
+Lemma op_ok_12 cfg s op : Inv s -> arg op 0 = 12 ->
+  op_ok cfg s op /\ inflight_ok s op (chunk cfg s op) = true.
+Proof.
+  intros I E. pose proof I as [W T].
+  assert (SIL : forall e, step_main cfg s op = (s, e) -> expected cfg s op = ([], []) ->
+            u_events e = [] -> c_events e = [] -> existsb chan_event e = false ->
+            op_ok cfg s op /\ inflight_ok s op (chunk cfg s op) = true).
+  { intros e E1 E2 U C X. split; [apply (op_ok_silent cfg s op e); auto|].
+    unfold inflight_ok, chunk. rewrite E1. cbn [fst snd]. rewrite (finish_nil _ W T), app_nil_r, C.
+    destruct (actor s op); reflexivity. }
+  destruct (kid_of s (arg op 1)) as [id|] eqn:K.
+  2:{ apply (SIL []); try reflexivity; unfold step_main, expected; rewrite E, K; reflexivity. }
+  destruct (kid_of s (arg op 2)) as [j|] eqn:KJ.
+  2:{ apply (SIL []); try reflexivity; unfold step_main, expected; rewrite E, K, KJ; reflexivity. }
+  destruct ((0 <=? arg op 3) && (arg op 3 <=? 3)) eqn:V.
+  2:{ apply (SIL []); try reflexivity; unfold step_main, expected; rewrite E, K, KJ, V; reflexivity. }
+  destruct (live s id) eqn:L.
+  2:{ apply (SIL [[11; 0; -1]]); try reflexivity; unfold step_main, expected; rewrite E, K, KJ, V;
+      [unfold newsc_during|]; rewrite L; reflexivity. }
+  pose proof K as K'. apply kid_of_lt in K'. destruct K' as [Hlt _].
+  assert (AC : actor s op = Some id) by (unfold actor; rewrite E; exact K).
+  assert (EX : expected cfg s op = spec_report s j (arg op 3)).
+  { unfold expected. rewrite E, K, KJ, V, L. reflexivity. }
+  assert (SM : step_main cfg s op = newsc_during s id j (arg op 3)).
+  { unfold step_main. rewrite E, K, KJ, V. reflexivity. }
+  unfold op_ok, inflight_ok, chunk. rewrite SM, EX, AC. unfold newsc_during. rewrite L. cbn [negb].
+  destruct (update_clauses s j (arg op 3) I) as [U [C [_ _]]].
+  pose proof (update_shutdowns s j (arg op 3) I) as SH. cbv zeta in SH.
+  pose proof (closed_in_update_dead s j (arg op 3)) as CD.
+  pose proof (child_update_inv s j (arg op 3) W) as W1. pose proof (child_update_nk s j (arg op 3)) as N1.
+  pose proof (n_events_update s j (arg op 3)) as NU.
+  destruct (child_update s j (arg op 3)) as [s1 e1]. cbn [fst snd] in *.
+  destruct (finish_inv s1 W1) as [W2 T2]. destruct (finish_proj s1 W1) as [N2 _].
+  pose proof (n_events_finish s1 W1) as NF.
+  destruct (finish s1) as [s2 e2]. cbn [fst snd] in *.
+  destruct (live s2 id) eqn:L2.
+  - unfold child_newsc. rewrite L2. cbn [negb fst snd].
+    assert (W3 : WInv (upd_kid (set_scs s2 (fupd (scs s2) (nsc s2) (fun _ => (id, false))) (S (nsc s2))) id
+                         (fun k => k_set_subs (k_subs k ++ [nsc s2]) k))).
+    { pose proof (child_newsc_inv s2 id W2 ltac:(lia)) as X. unfold child_newsc in X. rewrite L2 in X. exact X. }
+    rewrite (finish_nil _ W3 T2), app_nil_r.
+    assert (UE : u_events ([evN (nsc s2)] ++ e1 ++ e2 ++ [[11; 1; zn (nsc s2)]]) = u_events (e1 ++ e2)).
+    { rewrite !u_events_app. cbn [u_events evN]. rewrite app_nil_r. reflexivity. }
+    assert (CE : c_events ([evN (nsc s2)] ++ e1 ++ e2 ++ [[11; 1; zn (nsc s2)]]) = c_events (e1 ++ e2)).
+    { rewrite !c_events_app. cbn [c_events evN]. rewrite app_nil_r. reflexivity. }
+    rewrite UE, CE, U, C. split; [repeat split|].
+    + apply forallb_shut_ok; [exact W|]. intros c sc Hc Hin.
+      specialize (SH c sc Hc Hin). rewrite (app_assoc e1 e2). apply has_shutdown_mono. exact SH.
+    + intros id' [= <-] Hd. congruence.
+    + destruct (existsb (Z.eqb (zn id)) (map zn (snd (spec_report s j (arg op 3))))) eqn:M; [|reflexivity].
+      apply memz_zn in M. rewrite (CD id I M) in L2. discriminate.
+  - cbn [fst snd].
+    assert (W3 : WInv (set_scs s2 (fupd (scs s2) (nsc s2) (fun _ => (id, true))) (S (nsc s2))))
+      by (apply create_shut_inv; [exact W2|lia]).
+    rewrite (finish_nil _ W3 T2), app_nil_r.
+    assert (UE : u_events ([evN (nsc s2)] ++ e1 ++ e2 ++ [evS (nsc s2); [11; 0; -1]]) = u_events (e1 ++ e2)).
+    { rewrite !u_events_app. cbn [u_events evN evS]. rewrite app_nil_r. reflexivity. }
+    assert (CE : c_events ([evN (nsc s2)] ++ e1 ++ e2 ++ [evS (nsc s2); [11; 0; -1]]) = c_events (e1 ++ e2)).
+    { rewrite !c_events_app. cbn [c_events evN evS]. rewrite app_nil_r. reflexivity. }
+    rewrite UE, CE, U, C. split; [repeat split|].
+    + apply forallb_shut_ok; [exact W|]. intros c sc Hc Hin.
+      specialize (SH c sc Hc Hin). rewrite (app_assoc e1 e2). apply has_shutdown_mono. exact SH.
+    + intros id' [= <-] Hd. congruence.
+    + apply orb_true_iff. right. rewrite !n_events_app, NU, NF. cbn [n_events flat_map evN evS app forallb].
+      rewrite andb_true_r. unfold has_shutdown_z. apply existsb_exists. exists (evS (nsc s2)). split.
+      * right. apply in_or_app. right. apply in_or_app. right. left. reflexivity.
+      * apply word_eqb_refl.
+Qed.
+
 Lemma op_ok_all cfg s op : Inv s -> op_ok cfg s op.
 Proof.
   intros I. destruct (arg op 0) as [|p|p] eqn:E.
@@ -1052,6 +1208,7 @@ Proof.
   do 4 (try destruct p as [p|p|]);
   first [ apply op_ok_1; [exact I|exact E] | apply op_ok_2; [exact I|exact E] | apply op_ok_3; [exact I|exact E]
         | apply op_ok_5; [exact I|exact E] | apply op_ok_6; [exact I|exact E]
+        | apply op_ok_12; [exact I|exact E]
         | apply op_ok_simple; [exact I|tauto]
         | apply (op_ok_silent cfg s op []); auto; unfold step_main, expected, actor; rewrite E; try reflexivity;
           try (intros; discriminate) ].
@@ -1112,12 +1269,26 @@ Proof.
     + cbn [fst snd] in *. rewrite !forallb_app, A. reflexivity.
 Qed.
 
+Lemma nz_newsc_during s id j v : forallb nz (snd (newsc_during s id j v)) = true.
+Proof.
+  unfold newsc_during. destruct (negb (live s id)); [reflexivity|].
+  pose proof (nz_update s j v) as A. destruct (child_update s j v) as [s1 e1].
+  assert (B : forallb nz (snd (finish s1)) = true) by (unfold finish; apply nz_close_opt).
+  destruct (finish s1) as [s2 e2]. cbn [fst snd] in *.
+  destruct (live s2 id).
+  - pose proof (nz_newsc s2 id) as C. destruct (child_newsc s2 id) as [[s3 e3] r]. cbn [fst snd] in *.
+    rewrite !forallb_app, A, B, C. reflexivity.
+  - cbn [snd]. rewrite !forallb_app, A, B. reflexivity.
+Qed.
+
 Lemma nz_step_main cfg s op : forallb nz (snd (step_main cfg s op)) = true.
 Proof.
   unfold step_main.
   destruct (arg op 0) as [|p|p]; try reflexivity.
   do 4 (try destruct p as [p|p|]); try reflexivity.
   all: repeat match goal with
+       | |- context [newsc_during ?s ?i ?j ?v] =>
+           pose proof (nz_newsc_during s i j v); destruct (newsc_during s i j v) as [? ?]; cbn [fst snd] in *
        | |- context [switch_to ?c ?s ?b] =>
            pose proof (nz_switch c s b); destruct (switch_to c s b) as [[? ?] ?]; cbn [fst snd] in *
        | |- context [child_newsc ?s ?i] =>
@@ -1140,11 +1311,29 @@ Qed.
 Lemma pairs_eqb_refl l : pairs_eqb l l = true.
 Proof. induction l as [|[x y] l IH]; [reflexivity|]. cbn. rewrite !Z.eqb_refl. exact IH. Qed.
 
+Lemma inflight_all cfg s op : Inv s -> inflight_ok s op (chunk cfg s op) = true.
+Proof.
+  intros I. pose proof I as [W T].
+  destruct (Z.eq_dec (arg op 0) 12) as [E12|N12]; [apply op_ok_12; assumption|].
+  destruct (Z.eq_dec (arg op 0) 2) as [E2|N2].
+  - assert (NE : n_events (chunk cfg s op) = []).
+    { unfold chunk. rewrite n_events_app, (n_events_finish _ (step_main_inv cfg s op W)), app_nil_r.
+      unfold step_main. rewrite E2. destruct (kid_of s (arg op 1)); [|reflexivity].
+      destruct ((0 <=? arg op 2) && (arg op 2 <=? 3)); [apply n_events_update|reflexivity]. }
+    unfold inflight_ok. rewrite NE. destruct (actor s op); [|reflexivity]. apply orb_true_r.
+  - destruct (op_ok_all cfg s op I) as [_ [C _]].
+    unfold inflight_ok. destruct (actor s op) as [id|] eqn:A; [|reflexivity].
+    apply orb_true_iff. left. rewrite C. unfold actor, expected in *.
+    destruct (arg op 0) as [|q|q]; try discriminate.
+    do 4 (try destruct q as [q|q|]); try discriminate; try reflexivity; congruence.
+Qed.
+
 Lemma clause_op_ok cfg s op i : Inv s ->
   forallb (fun c => snd c) (clause_op cfg s op (chunk cfg s op) i) = true.
 Proof.
   intros I. destruct (op_ok_all cfg s op I) as [U [C [F A]]].
-  unfold clause_op. cbn [forallb snd]. rewrite F, U, C, pairs_eqb_refl, word_eqb_refl. rewrite !andb_true_r.
+  unfold clause_op. cbn [forallb snd]. rewrite (inflight_all cfg s op I), F, U, C, pairs_eqb_refl, word_eqb_refl.
+  rewrite !andb_true_r.
   destruct (actor s op) as [id|]; [|reflexivity].
   destruct (live s id) eqn:L; [reflexivity|]. rewrite (A id eq_refl L). reflexivity.
 Qed.
@@ -1245,8 +1434,9 @@ Proof.
   destruct (op_ok_all cfg s op I) as [U [_ [_ X]]]. split; [exact (X id A L)|].
   rewrite U. unfold expected, actor in *.
   destruct (arg op 0) as [|q|q]; try discriminate.
-  do 4 (try destruct q as [q|q|]); try discriminate; try reflexivity.
-  rewrite A. unfold spec_report. rewrite L. destruct ((0 <=? arg op 2) && (arg op 2 <=? 3)); reflexivity.
+  do 4 (try destruct q as [q|q|]); try discriminate; try reflexivity; rewrite A.
+  - rewrite L, andb_false_r. destruct (kid_of s (arg op 2)); reflexivity.
+  - unfold spec_report. rewrite L. destruct ((0 <=? arg op 2) && (arg op 2 <=? 3)); reflexivity.
 Qed.
 
 Lemma dead_newsubconn_fails s id : live s id = false -> child_newsc s id = (s, [], None).
@@ -1283,4 +1473,31 @@ Proof.
   assert (D3 : forall id, toclose s3 = Some id -> live (set_toclose s3 None) id = false).
   { intros. apply live_false. cbn. rewrite Hc3, Hp3, Hc, Hp. cbn. split; discriminate. }
   destruct (close_opt_proj _ _ D3) as [_ [_ [_ [Hcl4 _]]]]. rewrite Hcl4. cbn. rewrite Hcl3, Hcl. reflexivity.
+Qed.
+
+(* a sub-channel created for a policy that is swapped out and closed while its NewSubConn
+   is still inside the channel is shut down by NewSubConn itself, which returns an error *)
+Lemma inflight_shutdown cfg s id j v : reachable cfg s -> live s id = true ->
+  In id (snd (spec_report s j v)) ->
+  let r := newsc_during s id j v in
+  exists sc, In (evN sc) (snd r) /\ In (evS sc) (snd r) /\ In [11; 0; -1] (snd r) /\
+             sc_shut (fst r) sc = true /\ sc_owner (fst r) sc = id /\ k_subs (getkid (fst r) id) = k_subs (getkid s id).
+Proof.
+  intros R L Hc. pose proof (reachable_inv _ _ R) as I. pose proof I as [W T]. cbv zeta.
+  pose proof (closed_in_update_dead s j v id I Hc) as D.
+  destruct (child_update_spec s j v W T) as [_ [_ [_ [_ [_ [_ [_ Subs]]]]]]].
+  pose proof (child_update_inv s j v W) as W1.
+  unfold newsc_during. rewrite L. cbn [negb].
+  destruct (child_update s j v) as [s1 e1]. cbn [fst snd] in *.
+  assert (S2 : k_subs (getkid (fst (finish s1)) id) = k_subs (getkid s1 id)).
+  { unfold finish. destruct (toclose s1) as [c|] eqn:E; cbn [close_opt fst]; [|reflexivity].
+    destruct (w_toclose _ W1 _ E) as [_ B]. rewrite close_child_subs by exact B. reflexivity. }
+  destruct (finish s1) as [s2 e2]. cbn [fst snd] in *. rewrite D.
+  exists (nsc s2). cbn [fst snd]. repeat split.
+  - left. reflexivity.
+  - apply in_or_app. right. apply in_or_app. right. apply in_or_app. right. left. reflexivity.
+  - apply in_or_app. right. apply in_or_app. right. apply in_or_app. right. right. left. reflexivity.
+  - unfold sc_shut. simp_st. rewrite Nat.eqb_refl. reflexivity.
+  - unfold sc_owner. simp_st. rewrite Nat.eqb_refl. reflexivity.
+  - change (k_subs (getkid s2 id) = k_subs (getkid s id)). rewrite S2. apply Subs.
 Qed.
